@@ -247,6 +247,19 @@ def finish(ctx, level_text=""):
     violations = 0
     reported = set()
     unknown_failing = []
+    # deterministic replay of every listed finding of this property (oracles/known.py): printed on every run while it reproduces
+    try:
+        from oracles import known as known_replays
+    except Exception:  # noqa: BLE001
+        known_replays = None
+    for k in known:
+        if known_replays is None or any(f["key"] == k["key"] for f in ctx.failing):
+            continue
+        still, detail = known_replays.replay(ctx.pid, k["key"])
+        if still:
+            ctx.failing.append({"key": k["key"], "desc": k.get("desc", ""), "replay": detail})
+        else:
+            print(f"note: listed finding {k['key']} did not reproduce in its fixed replay ({'no replay registered / error' if still is None else 'no longer failing'}: {str(detail)[:160]})")
     for f in ctx.failing:
         if f["key"] in known_keys:
             if f["key"] not in reported:
